@@ -16,6 +16,8 @@ func asmG(c gen.AsmConfig) gmars.SimulatorConfig {
 	mode := gmars.ICWS94
 	if c.Legacy {
 		mode = gmars.ICWS88
+	} else if c.NOP94 {
+		mode = gmars.NOP94
 	}
 	return gmars.SimulatorConfig{Mode: mode, CoreSize: gmars.Address(c.CoreSize), Processes: gmars.Address(c.Processes),
 		Cycles: 1000, ReadLimit: gmars.Address(c.CoreSize), WriteLimit: gmars.Address(c.CoreSize),
